@@ -95,9 +95,7 @@ func registerSyncIntrinsics(reg regFn) {
 		if bs, ok := iv.v.(BSlice); ok && bs.obj != nil {
 			for _, f := range ps.free {
 				if fb, ok := f.(IfaceV).v.(BSlice); ok && fb.obj == bs.obj {
-					if in.attribute() != "" {
-						in.e.Report("pool", "a buffer was returned to a sync.Pool twice (two later owners would share it)", site, "double Put")
-					}
+					in.e.Report("pool", "a buffer was returned to a sync.Pool twice (two later owners would share it)", site, "double Put")
 				}
 			}
 		}
